@@ -15,11 +15,24 @@ import (
 	"os"
 	"os/exec"
 	"path/filepath"
+	"reflect"
 	"strings"
 	"time"
 
 	"github.com/IrineSistiana/mosproxy/app/router"
 )
+
+// setReject sets RuleConfig.Reject whatever integer type the field has in the tree under test (it was uint16
+// before the range check was added), wrapping like the configuration decoder did.
+func setReject(rc *router.RuleConfig, v int) {
+	f := reflect.ValueOf(rc).Elem().FieldByName("Reject")
+	switch f.Kind() {
+	case reflect.Int, reflect.Int16, reflect.Int32, reflect.Int64:
+		f.SetInt(int64(v))
+	default:
+		f.SetUint(uint64(v) & (1<<uint(f.Type().Bits()) - 1))
+	}
+}
 
 func unq(s string) string {
 	if s == "_" {
@@ -150,7 +163,9 @@ func runLoadCfg(cs string) string {
 		cfg.DomainSets = append(cfg.DomainSets, router.DomainSetConfig{Tag: d, Files: []string{dsFile}})
 	}
 	for _, r := range rules {
-		cfg.Rules = append(cfg.Rules, router.RuleConfig{Domain: r.d, Forward: r.f, Reject: int(r.reject)})
+		rcfg := router.RuleConfig{Domain: r.d, Forward: r.f}
+		setReject(&rcfg, int(r.reject))
+		cfg.Rules = append(cfg.Rules, rcfg)
 	}
 	v, err := router.VerifRun(cfg)
 	if err != nil {
